@@ -566,6 +566,13 @@ class ExprMixin:
             i = z3.Int("i!slice")
             arr = z3.Lambda([i], z3.Select(self.lel(r), i + a))
             return self.st.new_list_arr(arr, z3.simplify(z3.If(b - a < 0, z3.IntVal(0), b - a)), nm)
+        if nm == "bytes":
+            # a slice of a bytes object: some other bytes object (its content is not tracked; it is the same object only
+            # when nothing was cut, which the model does not decide)
+            for bnd in (lo, hi):
+                if bnd is not None and self.tag(bnd, "slice-bound") not in ("int", "bool", "none"):
+                    self.raise_("TypeError", self.anchor(node))
+            return VRef(self.st.alloc(self.table.id("bytes")))
         raise Unsupported("slice of %s" % nm)
 
     # ------------------------------------------------------------------ comprehensions
